@@ -84,6 +84,10 @@ def _run(tape):
     # ---- bounded liveness per comparison
     slack = 1.0 + 0.05 + sc.queue_delay * 2 + sc.slow_start + (0.2 if sc.jitter else 0.0) + 0.35 + sc.exit_delay
     bound = sc.timeout + slack
+    if 'leaves_thread' in sc.behaviours:
+        # retiring a worker that cannot exit takes up to the timeout (bounded join, then kill) before the next replay starts
+        bound += sc.timeout
+        run.probe('retiring_a_worker_that_cannot_exit')
     for i, d in enumerate(out.durations):
         if d > bound:
             tag = world.tag_of[out.ids[i]]
@@ -106,7 +110,8 @@ def _run(tape):
     last_played = {}
     for pid, tag in world.played:
         last_played[pid] = world.effective(tag)
-    lingering = [pid for pid in (getattr(out, 'alive_eventually', None) or []) if pid in unkillable and last_played.get(pid) != 'worker_hang']
+    cannot_exit = set(p.pid for p in mp.processes if p.exit_hangs)        # (neither killable nor able to exit: nothing the parent can do)
+    lingering = [pid for pid in (getattr(out, 'alive_eventually', None) or []) if pid in unkillable and last_played.get(pid) != 'worker_hang' and pid not in cannot_exit]
     if lingering:
         run.violate('no_worker_left_behind', 'unkillable-worker-never-leaves:%s' % sc.consume,
                     'worker(s) %s could not be killed after the timeout; their replay returned long ago, the run %s, and %.0f s later they are still alive' % (
